@@ -107,6 +107,3 @@ Definition chained_max (k : N) : N :=
   | 6 => 4398046511103 | 7 => 562949953421311 | 8 => 72057594037927935
   | 9 => 18446744073709551615 | _ => 0
   end.
-
-(* EXTRACT: chained_spec csimple_spec chained_denote csimple_denote chained_spec_len chained_max
-   chained_decode csimple_decode *)
